@@ -50,17 +50,28 @@ __all__ = ("TrioEventLoop",)
 class _TrioIdleCallbackInstrument(trio.abc.Instrument):
     """IDLE callbacks emulation helper."""
 
-    __slots__ = ("idle_callbacks",)
+    __slots__ = ("idle_callbacks", "on_error")
 
-    def __init__(self, idle_callbacks: Mapping[Hashable, Callable[[], typing.Any]]):
+    def __init__(
+        self,
+        idle_callbacks: Mapping[Hashable, Callable[[], typing.Any]],
+        on_error: Callable[[BaseException], typing.Any] | None = None,
+    ):
         self.idle_callbacks = idle_callbacks
+        self.on_error = on_error
 
     def before_io_wait(self, timeout: float) -> None:
         if timeout > 0:
-            # idle callbacks may remove idle callbacks: iterate over a copy, skip the removed ones
-            for handle, idle_callback in tuple(self.idle_callbacks.items()):
-                if handle in self.idle_callbacks:
-                    idle_callback()
+            try:
+                # idle callbacks may remove idle callbacks: iterate over a copy, skip the removed ones
+                for handle, idle_callback in tuple(self.idle_callbacks.items()):
+                    if handle in self.idle_callbacks:
+                        idle_callback()
+            except BaseException as exc:
+                # Trio only logs exceptions raised by an instrument (and disables the instrument)
+                if self.on_error is None:
+                    raise
+                self.on_error(exc)
 
 
 class TrioEventLoop(EventLoop):
@@ -83,6 +94,7 @@ class TrioEventLoop(EventLoop):
 
         self._sleep = trio.sleep
         self._wait_readable = trio.lowlevel.wait_readable
+        self._idle_exc: BaseException | None = None
 
     def alarm(
         self,
@@ -159,10 +171,11 @@ class TrioEventLoop(EventLoop):
         exception. If ExitMainLoop is raised, exits cleanly.
         """
 
-        emulate_idle_callbacks = _TrioIdleCallbackInstrument(self._idle_callbacks)
+        emulate_idle_callbacks = _TrioIdleCallbackInstrument(self._idle_callbacks, self._idle_callback_failed)
 
         try:
             trio.run(self._main_task, instruments=[emulate_idle_callbacks])
+            self._reraise_idle_exception()
         except BaseException as exc:
             self._handle_main_loop_exception(exc)
 
@@ -184,7 +197,7 @@ class TrioEventLoop(EventLoop):
                 nursery.cancel_scope.cancel()
         """
 
-        emulate_idle_callbacks = _TrioIdleCallbackInstrument(self._idle_callbacks)
+        emulate_idle_callbacks = _TrioIdleCallbackInstrument(self._idle_callbacks, self._idle_callback_failed)
 
         try:
             trio.lowlevel.add_instrument(emulate_idle_callbacks)
@@ -192,6 +205,7 @@ class TrioEventLoop(EventLoop):
                 await self._main_task()
             finally:
                 trio.lowlevel.remove_instrument(emulate_idle_callbacks)
+            self._reraise_idle_exception()
         except BaseException as exc:
             self._handle_main_loop_exception(exc)
 
@@ -229,6 +243,22 @@ class TrioEventLoop(EventLoop):
         with scope:
             await self._sleep(seconds)
             callback()
+
+    def _idle_callback_failed(self, exc: BaseException) -> None:
+        """An idle callback raised: stop the main task, the exception is re-raised once it has finished."""
+        if self._idle_exc is None:
+            self._idle_exc = exc
+        # called from inside the scheduler, which is about to wait for I/O: wake it up and cancel from there
+        trio.lowlevel.current_trio_token().run_sync_soon(self._cancel_main_task)
+
+    def _cancel_main_task(self) -> None:
+        if self._nursery is not None:
+            self._nursery.cancel_scope.cancel()
+
+    def _reraise_idle_exception(self) -> None:
+        if self._idle_exc is not None:
+            exc, self._idle_exc = self._idle_exc, None
+            raise exc
 
     def _handle_main_loop_exception(self, exc: BaseException) -> None:
         """Handles exceptions raised from the main loop, catching ExitMainLoop
